@@ -325,19 +325,25 @@ func (c *Check) ruleEmptyMeansAllEmpty(rule string) {
 }
 
 func isPhiBlockOf(v ssa.Value, b *ssa.BasicBlock) bool {
-	p, ok := v.(*ssa.Phi)
-	if !ok {
-		return false
-	}
-	if p.Block() == b {
-		return true
-	}
-	for _, e := range p.Edges {
-		if isPhiBlockOf(e, b) {
+	seen := map[ssa.Value]bool{}
+	var walk func(v ssa.Value) bool
+	walk = func(v ssa.Value) bool {
+		p, ok := v.(*ssa.Phi)
+		if !ok || seen[v] {
+			return false
+		}
+		seen[v] = true
+		if p.Block() == b {
 			return true
 		}
+		for _, e := range p.Edges {
+			if walk(e) {
+				return true
+			}
+		}
+		return false
 	}
-	return false
+	return walk(v)
 }
 
 func missingNames(known map[*types.Var]bool, fields []*types.Var) []string {
@@ -1240,19 +1246,24 @@ func (c *Check) ruleRequestOnlyIfUnknownEverywhere(rule string) {
 	}
 	tests := []string{"(*storage.BlockRepository).Contains", "(*state.State).BlockIsRequested", "(*state.State).BlockIsToBeRequested"}
 	n := 0
-	for _, s := range callsTo(fn, "(*state.State).AddBlockRequest") {
+	sites := callsTo(fn, "(*state.State).AddBlockRequest")
+	clears := callsTo(fn, "(*state.State).ClearBlockRequestsAfter")
+	sites = append(sites, clears...)
+	for _, s := range sites {
 		h := loopHeaderOf(s.Instr.Block())
 		if h == nil {
 			continue
 		}
-		// only the requests made for headers that are not the next one (those pass the tests)
+		// only the requests made for headers that are not the next one (those pass the tests); the
+		// pending-fork clear is always for such a header
 		var testBlock *ssa.BasicBlock
 		for _, ts := range callsTo(fn, tests[0]) {
 			if loopHeaderOf(ts.Instr.Block()) == h {
 				testBlock = ts.Instr.Block()
 			}
 		}
-		if testBlock == nil || !reachableWithin(testBlock, s.Instr.Block(), h) {
+		isClear := calleeObjName(s.CC) == "ClearBlockRequestsAfter"
+		if testBlock == nil || (!isClear && !reachableWithin(testBlock, s.Instr.Block(), h)) {
 			continue
 		}
 		n++
@@ -1264,10 +1275,27 @@ func (c *Check) ruleRequestOnlyIfUnknownEverywhere(rule string) {
 			a, b := call.Call.Args[len(call.Call.Args)-1], site.Call.Args[len(site.Call.Args)-1]
 			return a == b || sameExpr(a, b)
 		}
+		if isClear {
+			sameHash = nil // the clear is keyed by the parent; the tests are the ones on this header's hash in the loop
+		}
 		for _, t := range tests {
 			guard := callEdge(false, -1, sameHash, t)
+			if isClear {
+				// the tests on the header's own hash: their argument is not the clear's (parent) argument
+				guard = callEdge(false, -1, func(call *ssa.Call) bool {
+					if site == nil || len(call.Call.Args) == 0 || len(site.Call.Args) == 0 {
+						return true
+					}
+					a, b := call.Call.Args[len(call.Call.Args)-1], site.Call.Args[len(site.Call.Args)-1]
+					return !(a == b || sameExpr(a, b)) && !mentionsFieldNamed(a, "PrevBlock")
+				}, t)
+			}
 			avoid, path := reachAvoid2(h, s.Instr.Block(), guard, nil)
-			c.Decide(!avoid, rule, fmt.Sprintf("handlers.(*HeadersHandler).Handle#request-only-after-%s-is-false", shortName(t)), s.Pos(), "edge-cutset", pathWitness(fn, path),
+			what := "request"
+			if isClear {
+				what = "pending-fork-clear"
+			}
+			c.Decide(!avoid, rule, fmt.Sprintf("handlers.(*HeadersHandler).Handle#%s-only-after-%s-is-false", what, shortName(t)), s.Pos(), "edge-cutset", pathWitness(fn, path),
 				"the request is reached only through the test's false edge",
 				"a header can reach AddBlockRequest without "+shortName(t)+" having answered false in this iteration: a block that is already stored, requested or queued is requested a second time")
 		}
